@@ -8,10 +8,10 @@ export CARGO_NET_OFFLINE=true CARGO_TARGET_DIR=/tmp/wt/$wid-target
 cd $W || exit 3
 git checkout -q -- . && git clean -fdq
 git apply $O/patch.diff || { echo "patch does not apply"; exit 3; }
-r1=$($ex 2>&1 | grep -E "^test result" | tr '\n' ' ')
+r1=$(bash -c "$ex" 2>&1 | grep -E "^test result" | tr '\n' ' ')
 git apply $O/demo.diff || { echo "demo does not apply on top of patch"; exit 3; }
-r2=$($demo 2>&1 | grep -E "^test result" | tr '\n' ' ')
+r2=$(bash -c "$demo" 2>&1 | grep -E "^test result" | tr '\n' ' ')
 git apply -R $O/patch.diff || { echo "cannot revert patch"; exit 3; }
-r3=$($demo 2>&1 | grep -E "^test result" | tr '\n' ' ')
+r3=$(bash -c "$demo" 2>&1 | grep -E "^test result" | tr '\n' ' ')
 git checkout -q -- . && git clean -fdq
 echo "$wid | existing(with patch): $r1 | demo with patch: $r2 | demo without patch: $r3"
